@@ -36,6 +36,8 @@
 #include "tickit.h"
 #include <fcntl.h>
 
+#define H_PIPE_CAPACITY (1 << 20)
+
 struct Chunk { char dest; int isnull; size_t len; unsigned char *bytes; };
 
 struct Side {
@@ -98,6 +100,9 @@ static void side_open(struct Side *s, size_t n, const char *how, int early)
     int p[2];
     if(pipe(p) < 0) _exit(98);
     fcntl(p[0], F_SETFL, fcntl(p[0], F_GETFL) | O_NONBLOCK);
+    /* the pipe is drained only after each operation: make it hold the largest single operation the generator
+     * produces (buffers above PIPE_BUF and writes of several buffers), else write(2) would block for ever */
+    if(fcntl(p[1], F_SETPIPE_SZ, H_PIPE_CAPACITY) < H_PIPE_CAPACITY) _exit(96);
     s->rfd = p[0]; s->wfd = p[1];
   }
   if(!early) {
